@@ -224,6 +224,9 @@ SOLVE_CASES = [
     # loud solves (the library's default verbosity, and the highest)
     dict(L=[1.0, 2.0], step="block", second="new_point", verbose=1),
     dict(L=[1.0, 2.0, 4.0], step="gd", second="same", verbose=2),
+    # a loop decomposing temporaries nobody keeps (their memory is recycled from one iteration to the next)
+    dict(L=[1.0, 2.0], step="block", second="new_point", temps=True),
+    dict(L=[1.0, 2.0, 4.0], step="gd", second="none", temps=True),
 ]
 
 
@@ -252,6 +255,11 @@ def judge_solve(case):
         def logged(point, k):
             b = origs[idx](point, k)
             blocks = [origs[idx](point, kk) for kk in range(parts[idx].get_nb_blocks())]
+            tot = {}
+            for b_ in blocks:
+                tot = R.add(tot, R.of_point(b_))
+            if not R.close(tot, R.of_point(point), 1e-12):
+                probs.append(("solve:blocks-do-not-sum", "the blocks handed out for a point do not sum back to it"))
             if not any(all(x is y for x, y in zip(blocks, old)) for old in logs[idx]):
                 logs[idx].append(blocks)
             return b
@@ -275,6 +283,14 @@ def judge_solve(case):
         x1 = x0 - (1.0 / sum(case["L"])) * g0          # the user never decomposes anything
     else:
         x1 = x0 - (1.0 / case["L"][0]) * part.get_block(g0, 0)
+    if case.get("temps"):
+        for k_ in range(4):
+            part.get_block(x0 - (k_ + 1) * g0, k_ % d)      # the argument dies at the end of each statement
+            held_ = x0 - (k_ + 2.5) * g0                    # ANOTHER point, built right after (it may get the recycled memory)
+            part.get_block(held_, (k_ + 1) % d)
+            held2_ = (k_ + 3.5) * xs + x0
+            part.get_block(held2_, 0)
+            del held_, held2_
     if case.get("copies"):
         part.get_block(x0 - g0, 0)
         part.get_block(x0 - g0, d - 1)          # another object with the same decomposition
